@@ -62,10 +62,9 @@ theorem pyAtomEq_symm (a b : Key) : pyAtomEq a b = pyAtomEq b a := by
 def atomClash (a b : Key) : Bool := pyAtomEq a b != atomDeepEqual a b
 
 /-- …only an integer against a double (Python compares exactly, F&O converts the integer to
-xs:double first — different only beyond 2^53), or two opaque values (hexBinary / base64Binary) -/
+xs:double first — different only beyond 2^53) -/
 def atomClashShape : Key → Key → Bool
   | .int _, .dbl _ _ | .dbl _ _, .int _ => true
-  | .opq .., .opq .. => true
   | _, _ => false
 
 theorem atomClash_shape (a b : Key) (h : atomClash a b = true) : atomClashShape a b = true := by
